@@ -68,6 +68,7 @@ type caseJ struct {
 	Forced   bool   `json:"forced,omitempty"`
 	Frames   bool   `json:"frames,omitempty"` // observed on decoded frames of the real packet source
 	Volume   int    `json:"volume,omitempty"`
+	Slow     bool   `json:"slow,omitempty"` // slow consumer of the frames
 }
 
 type nestedIPs struct {
@@ -488,6 +489,12 @@ func mkFrames(caseSeed int64, volume int, cmd string) caseJ {
 	if c.Portless {
 		k = 22 + r.Intn(5)
 	}
+	if slowFrames {
+		// more addresses than any fixed set of buffers between the generator and the filler could hold
+		k = 21 + r.Intn(2)
+		volume = (1 << uint(32-k)) * (1 + r.Intn(2))
+		c.Slow = true
+	}
 	a, _ := tgt.RandNet4(r, k, k, r.Bool())
 	size := 1 << uint(32-k)
 	c.NetBase, c.NetK = a, k
@@ -500,9 +507,15 @@ func mkFrames(caseSeed int64, volume int, cmd string) caseJ {
 		opts.PortRanges = rs
 		c.Ranges = tgt.RangesJSON(rs)
 	}
-	if r.Bool() {
+	if r.Bool() || slowFrames {
 		c.Filter = true
-		opts.ExcludeIPs, c.Nets = exclusionAround(r, base, size)
+		if slowFrames {
+			// a few hosts and small blocks plus one half and one eighth of the net
+			opts.ExcludeIPs, c.Nets = exclusionWith(r, base, size, [][2]int64{{int64(base + uint32(r.Intn(2))*uint32(size/2)), int64(k + 1)},
+				{int64(base + uint32(r.Intn(8))*uint32(size/8)), int64(k + 3)}})
+		} else {
+			opts.ExcludeIPs, c.Nets = exclusionAround(r, base, size)
+		}
 	}
 	if c.Cmd != "arp" {
 		// as in the commands: outside VPN mode the ARP stage is always there
@@ -517,6 +530,10 @@ func mkFrames(caseSeed int64, volume int, cmd string) caseJ {
 	rand.Seed(c.Seed)
 	var ks [][]byte
 	pkts := command.VerifScanMethod(ctx, c.Cmd, opts).Packets(ctx, rng)
+	if c.Slow {
+		// a consumer slower than the generators (rate limit, slow writes): the pipeline runs ahead and fills its queues
+		time.Sleep(150 * time.Millisecond)
+	}
 	timeout := time.After(60 * time.Second)
 loop:
 	for {
@@ -532,6 +549,9 @@ loop:
 					c.ErrMsg = p.Err.Error()
 				}
 				continue
+			}
+			if c.Slow && len(ks) < 6000 {
+				time.Sleep(20 * time.Microsecond)
 			}
 			f := p.Buf.Bytes()
 			switch {
@@ -560,9 +580,20 @@ var stdinContent string
 // forceFilter: every chain case gets an exclusion list (the C02 check drives the chains of all commands this way)
 var forceFilter bool
 
+// slowFrames: the frame-level cases get a big subnet, a big exclusion list and a slow consumer
+var slowFrames bool
+
 func exclusionAround(r *hlib.SplitMix64, base uint32, span int) (scan.IPContainer, [][2]int64) {
+	return exclusionWith(r, base, span, nil)
+}
+
+func exclusionWith(r *hlib.SplitMix64, base uint32, span int, more [][2]int64) (scan.IPContainer, [][2]int64) {
 	var nets [][2]int64
 	var sb strings.Builder
+	for _, m := range more {
+		nets = append(nets, m)
+		fmt.Fprintf(&sb, "%s/%d\n", tgt.Dotted(uint32(m[0])), m[1])
+	}
 	n := 1 + r.Intn(5)
 	for i := 0; i < n; i++ {
 		a := base + uint32(r.Intn(span))
@@ -600,6 +631,7 @@ func main() {
 	sx := flag.String("e2e", "", "end-to-end runs with this sx binary in private network namespaces")
 	ne2e := flag.Int("ne2e", 8, "number of end-to-end runs")
 	flag.BoolVar(&forceFilter, "forcefilter", false, "every chain case has an exclusion list")
+	flag.BoolVar(&slowFrames, "slowframes", false, "frame-level cases with > 1000 addresses, a big exclusion list and a slow consumer")
 	nframes := flag.Int("nframes", 0, "chain cases observed on the frames of the real packet source")
 	e2eSet := flag.String("e2eset", "coverage", "coverage | refuse (non-IPv4 targets, for C02)")
 	flag.Parse()
@@ -639,6 +671,9 @@ func main() {
 			}
 			if len(f) > 3 {
 				cmd = f[3]
+			}
+			if len(f) > 4 && f[4] == "slow" {
+				slowFrames = true
 			}
 			w.Put(mkFrames(cs, vol, cmd))
 		default:
